@@ -28,6 +28,7 @@ uses = {}  # shim name -> number of simulated uses
 urandom_log = []  # (n, value, caller_file_basename, caller_function)
 urandom_force = []  # values the next draws made by repository code return (consumed one per draw of the same size)
 wrap_log = []  # real-TLS wrap spy: dicts
+real_aliases = {}  # host name -> (ip, canonical name) for workloads on real sockets
 NETWORK = None  # the SimNetwork used by socket()/getaddrinfo() routing
 
 _real = {}
@@ -229,6 +230,18 @@ def install():
         if _sim() is not None and NETWORK is not None:
             _count("socket.getaddrinfo")
             return NETWORK.getaddrinfo(*a, **k)
+        host = a[0] if a else k.get("host")
+        if isinstance(host, str) and host.lower() in real_aliases:
+            # a name of the real-socket workloads that the resolver knows as an alias (a CNAME, a hosts-file alias): it resolves to
+            # `ip`; the canonical name is reported only when asked for (AI_CANONNAME), as the C library does
+            ip, canon = real_aliases[host.lower()]
+            flags = a[5] if len(a) > 5 else k.get("flags", 0)
+            a2 = (ip,) + tuple(a[1:5])
+            k2 = {kk: vv for kk, vv in k.items() if kk not in ("host", "flags")}
+            out = _real["getaddrinfo"](*a2, **k2)
+            if flags & socket.AI_CANONNAME:
+                out = [(f, t, p, canon if i == 0 else "", ad) for i, (f, t, p, _c, ad) in enumerate(out)]
+            return out
         return _real["getaddrinfo"](*a, **k)
 
     socket.getaddrinfo = getaddrinfo
@@ -252,6 +265,11 @@ def install():
             "server_hostname": k.get("server_hostname"),
             "in_repo": _in_repo(2),
         }
+        try:
+            # cipher suites without authentication (ADH/AECDH...): with one of them the server presents no certificate at all
+            rec["anon_ciphers"] = sorted(c["name"] for c in self.get_ciphers() if c.get("auth") == "auth-null")
+        except Exception:  # noqa
+            rec["anon_ciphers"] = None
         wrap_log.append(rec)
         return _real["wrap_socket"](self, sock, *a, **k)
 
